@@ -267,6 +267,13 @@ class MockCuda:
     def synchronize(self):
         pass
 
+    class atomic:
+        @staticmethod
+        def add(array, idx, val):
+            old = array[idx]
+            array[idx] += val
+            return old
+
     def grid(self, dims):
         _ = dims  # silence "not used" warning
         return self.x, self.y
